@@ -32,6 +32,8 @@ pub enum Dev {
     Err,
     /// this and every later call fails
     ErrSticky,
+    /// this call returns ErrorKind::Interrupted and transfers nothing (the retryable non-failure of the Read/Write contract)
+    Interrupted,
 }
 
 #[derive(Default)]
@@ -47,6 +49,7 @@ pub struct Plan {
     pub sizes: Vec<usize>,
     pub sticky_on: bool,
     pub errors_returned: u64,
+    pub interrupts_returned: u64,
     pub record_kinds: bool,
 }
 
@@ -92,9 +95,17 @@ impl<T> Inst<T> {
                 p.errors_returned += 1;
                 Some(Dev::Err)
             }
+            Some(Dev::Interrupted) => {
+                p.interrupts_returned += 1;
+                Some(Dev::Interrupted)
+            }
             d => d,
         }
     }
+}
+
+fn interrupted() -> io::Error {
+    io::Error::new(io::ErrorKind::Interrupted, "injected EINTR")
 }
 
 fn injected(k: Kind) -> io::Error {
@@ -107,6 +118,7 @@ impl<T: Read + Seek> Read for Inst<T> {
         let mut n = buf.len();
         match d {
             Some(Dev::Err) | Some(Dev::ErrSticky) => return Err(injected(Kind::Read)),
+            Some(Dev::Interrupted) => return Err(interrupted()),
             Some(Dev::Short(j)) => n = n.min(j),
             None => {}
         }
@@ -131,6 +143,7 @@ impl<T: Write> Write for Inst<T> {
         let mut n = buf.len();
         match d {
             Some(Dev::Err) | Some(Dev::ErrSticky) => return Err(injected(Kind::Write)),
+            Some(Dev::Interrupted) => return Err(interrupted()),
             Some(Dev::Short(j)) => n = n.min(j.max(1)),
             None => {}
         }
@@ -142,6 +155,7 @@ impl<T: Write> Write for Inst<T> {
     fn flush(&mut self) -> io::Result<()> {
         match self.point(Kind::Flush, 0) {
             Some(Dev::Err) | Some(Dev::ErrSticky) => Err(injected(Kind::Flush)),
+            Some(Dev::Interrupted) => Err(interrupted()),
             _ => self.cur.flush(),
         }
     }
@@ -150,6 +164,7 @@ impl<T: Seek> Seek for Inst<T> {
     fn seek(&mut self, pos: SeekFrom) -> io::Result<u64> {
         match self.point(Kind::Seek, 0) {
             Some(Dev::Err) | Some(Dev::ErrSticky) => Err(injected(Kind::Seek)),
+            Some(Dev::Interrupted) => Err(interrupted()),
             _ => self.cur.seek(pos),
         }
     }
